@@ -157,6 +157,6 @@ pub fn spec() -> PropSpec {
         rule: "scenario = (job graph from a library of chains, diamonds, multi-sink graphs, joins, replay/iterate loops incl. nested) x input (incl. empty and larger than total channel capacity via capacity 1 + single-element batches) x configuration; every schedule within the deviation bound under three canonical orders is executed; non-trivial = non-empty input",
         assumptions: &["deviation (delay) bound as reported per scenario; schedules beyond it are not covered"],
         exhaustive_when_uncapped: false,
-        budget_s: (50, 2400),
+        budget_s: (50, 1500),
     }
 }
